@@ -20,6 +20,7 @@ type nmoveCase struct {
 	Outn     int       `json:"outn"`
 	InSeason bool      `json:"in_season"`
 	AfterSow bool      `json:"after_sowing"`
+	NotSown  bool      `json:"not_sown_yet,omitempty"` // automatic sowing, next crop not sown: SAAT = 0, inside its harvest window
 	Dz       float64   `json:"dz"`
 	Wdt      float64   `json:"wdt"`
 	Dv       float64   `json:"dv"`
@@ -201,15 +202,19 @@ func genNmoveCase(r *vh.Rng, balanceOnly bool) nmoveCase {
 		c.Pe = append(c.Pe, pe)
 		c.Dn = append(c.Dn, dn)
 	}
-	switch r.Intn(4) {
+	switch r.Intn(5) {
 	case 0:
 		c.InSeason, c.AfterSow = true, true
 	case 1:
 		c.InSeason, c.AfterSow = true, false // the sowing day itself
 	case 2:
 		c.InSeason, c.AfterSow = false, true // after the latest harvest date
+	case 3:
+		c.InSeason, c.AfterSow, c.NotSown = false, true, true // automatic sowing: no sowing date yet (SAAT = 0)
 	}
-	if c.InSeason && r.Chance(0.6) {
+	// SCHNORR keeps the fixation of the last crop day until the crop routine runs again (crop.go:742): it is non-zero
+	// outside the season too
+	if r.Chance(0.6) {
 		c.Schnorr = vh.RoundTo(r.Uni(0, 4), 3)
 	}
 	c.Pesum = vh.RoundTo(r.Uni(0, 200), 2)
@@ -270,6 +275,8 @@ func newNmoveState(c *nmoveCase) (gp *hermes.GlobalVarsMain, lp *hermes.NitroSha
 		g.DN[z] = c.Dn[z]
 	}
 	switch {
+	case c.NotSown:
+		g.SAAT[0], g.ERNTE2[0] = 0, nmoveZeit+100
 	case c.InSeason && c.AfterSow:
 		g.SAAT[0], g.ERNTE2[0] = nmoveZeit-100, nmoveZeit+100
 	case c.InSeason:
